@@ -257,6 +257,8 @@ public:
     size_t nrB = B.getNumberOfRows();
     size_t ncB = B.getNumberOfColumns();
     if (ncA != nrB) throw DimensionException("MatrixTools::mult(). nrows B != ncols A.", nrB, ncA);
+    if (iA.getNumberOfRows() != nrA || iA.getNumberOfColumns() != ncA) throw DimensionException("MatrixTools::mult(). A and iA must have the same size.", iA.getNumberOfRows() * iA.getNumberOfColumns(), nrA * ncA);
+    if (iB.getNumberOfRows() != nrB || iB.getNumberOfColumns() != ncB) throw DimensionException("MatrixTools::mult(). B and iB must have the same size.", iB.getNumberOfRows() * iB.getNumberOfColumns(), nrB * ncB);
     O.resize(nrA, ncB);
     iO.resize(nrA, ncB);
     for (size_t i = 0; i < nrA; i++)
@@ -336,6 +338,9 @@ public:
     size_t ncB = B.getNumberOfColumns();
     if (ncA != nrB) throw DimensionException("MatrixTools::mult(). nrows B != ncols A.", nrB, ncA);
     if (ncA != D.size()) throw DimensionException("MatrixTools::mult(). Vector size is not equal to matrix size.", D.size(), ncA);
+    if (ncA != iD.size()) throw DimensionException("MatrixTools::mult(). Vector size is not equal to matrix size.", iD.size(), ncA);
+    if (iA.getNumberOfRows() != nrA || iA.getNumberOfColumns() != ncA) throw DimensionException("MatrixTools::mult(). A and iA must have the same size.", iA.getNumberOfRows() * iA.getNumberOfColumns(), nrA * ncA);
+    if (iB.getNumberOfRows() != nrB || iB.getNumberOfColumns() != ncB) throw DimensionException("MatrixTools::mult(). B and iB must have the same size.", iB.getNumberOfRows() * iB.getNumberOfColumns(), nrB * ncB);
     O.resize(nrA, ncB);
     iO.resize(nrA, ncB);
     Scalar ab, iaib, iab, aib;
@@ -1054,6 +1059,8 @@ public:
     size_t ncB = B.getNumberOfColumns();
     if (nrA != nrB) throw DimensionException("MatrixTools::hadamardMult(). nrows A != nrows B.", nrA, nrB);
     if (ncA != ncB) throw DimensionException("MatrixTools::hadamardMult(). ncols A != ncols B.", ncA, ncB);
+    if (iA.getNumberOfRows() != nrA || iA.getNumberOfColumns() != ncA) throw DimensionException("MatrixTools::hadamardMult(). A and iA must have the same size.", iA.getNumberOfRows() * iA.getNumberOfColumns(), nrA * ncA);
+    if (iB.getNumberOfRows() != nrB || iB.getNumberOfColumns() != ncB) throw DimensionException("MatrixTools::hadamardMult(). B and iB must have the same size.", iB.getNumberOfRows() * iB.getNumberOfColumns(), nrB * ncB);
     O.resize(nrA, ncA);
     iO.resize(nrA, ncA);
     for (size_t i = 0; i < nrA; i++)
